@@ -59,6 +59,30 @@ def main():
             if not props["ok"]:
                 broken.append(props["error"])
     t_build = time.time() - t0
+    coqchk = None
+    if tier == "thorough" and not broken:
+        # independent re-check of the compiled property file and everything it loads (coqchk), with the axiom summary
+        import re
+        import subprocess
+        tq = time.time()
+        try:
+            r = subprocess.run(["coqchk", "-silent", "-o", "-Q", "theories", "PV", "-Q", "gen", "PVGen", f"PV.Properties.{pid}"],
+                               cwd=core.VERIF, capture_output=True, text=True, timeout=1500)
+            txt = r.stdout + r.stderr
+
+            def section(title):
+                m = re.search(r"\* " + re.escape(title) + r":\s*(.*?)\n\s*\n", txt, re.S)
+                return " ".join(m.group(1).split()) if m else None
+            coqchk = {"exit": r.returncode, "seconds": round(time.time() - tq, 1), "axioms": section("Axioms"),
+                      "type_in_type": section("Constants/Inductives relying on type-in-type"),
+                      "unsafe_fixpoints": section("Constants/Inductives relying on unsafe (co)fixpoints"),
+                      "assumed_positivity": section("Inductives whose positivity is assumed")}
+            bad = r.returncode != 0 or any(coqchk[k] != "<none>" for k in ("axioms", "type_in_type", "unsafe_fixpoints", "assumed_positivity"))
+            if bad:
+                broken.append({"file": f"theories/Properties/{pid}.vo", "theorem": "coqchk -o (independent checker / axiom summary)",
+                               "message": txt[-1500:]})
+        except subprocess.TimeoutExpired:
+            coqchk = {"exit": None, "seconds": round(time.time() - tq, 1), "note": "timed out after 1500 s (not counted as broken)"}
     gate = core.grep_gate()
     if gate:
         broken.append({"file": gate[0].split(":")[0], "theorem": "grep-gate", "message": "; ".join(gate[:5])})
@@ -148,7 +172,7 @@ def main():
         "trusted_base": core.TRUSTED_BASE + list(getattr(pmod, "TRUSTED_EXTRA", [])),
         "theorems": props["theorems"], "generated_obligations": gen_obl,
         "axioms": props.get("axioms", {}), "closed_under_global_context": props.get("closed", 0),
-        "generated_tables": table_info,
+        "generated_tables": table_info, "coqchk": coqchk,
         "evaluations": stats.evaluations, "distinct_nontrivial": len(stats.nontrivial),
         "rule": getattr(pmod, "RULE", ""), "samples": stats.samples[:8] or [{"note": "no correspondence cases were run"}],
         "model_undefined": stats.undefined, "by_surface": stats.by_surface, "distribution": dict(sorted(stats.dist.items())),
